@@ -771,6 +771,17 @@ def check_C07(tier):
         for d in (2, 3, 4):
             for c in pcombos[:2]:
                 add(n, "depth", "pruning", depth=d, cfg=c)
+    # the fifty-move rule next to the mate rule: positions set up with the half-move clock at 97-99 - few-piece roots, where a
+    # check is answered by quiet king moves only, and middlegame positions. A node in check ALL of whose replies run into the
+    # draw by the clock has legal moves and is no checkmate (every reply is a move that was "searched", with value draw)
+    for f in sparse_fens()[:(8 if quick else 40)] + [fenspec.state_to_fen(n["pos"]) for n in normal[24:(28 if quick else 60)]]:
+        for hm in (97, 98, 99):
+            pos = dict(fenspec.fen_to_state(f), hmc=hm)
+            if pos["ep"] >= 0:
+                continue
+            n = {"pos": pos, "root": pos, "path": [], "kinds": []}
+            for d in (2, 3):
+                add(n, "depth", "pruning", depth=d, cfg={})
     # converse: roots without legal moves
     term = sl.load_nodes(tree, want=lambda o: len(o["legal"]) == 0)
     rng.shuffle(term)
